@@ -35,10 +35,13 @@ Idle == [kind |-> "idle"]
 NoResult == [kind |-> "none"]
 
 HasAssertions(ver) == ver \in {3, 4}
-Purposes == {"local", "public"}
+\* "+c": the payload type declares another encoding; its suffix is part of the header (vNc.local. / vNc.public.) and
+\* therefore of a token's identity.  Base strips it.
+Purposes == {"local", "public", "local+c", "public+c"}
+Base(purpose) == IF purpose \in {"local", "local+c"} THEN "local" ELSE "public"
 
 \* the key that unseals what `k` seals
-UnsealKeyOf(purpose, k) == IF purpose = "local" THEN k ELSE pubOf[k]
+UnsealKeyOf(purpose, k) == IF Base(purpose) = "local" THEN k ELSE pubOf[k]
 
 Init == /\ pubOf = << >>
         /\ tokens = {}
@@ -63,7 +66,7 @@ LearnPair(sk, pk) ==
 SealBegin(ver, purpose, key, claims, footer, aad) ==
   /\ op = Idle
   /\ purpose \in Purposes
-  /\ (purpose = "public" => key \in DOMAIN pubOf)     \* a signing key's public half is known
+  /\ (Base(purpose) = "public" => key \in DOMAIN pubOf)     \* a signing key's public half is known
   /\ op' = [kind |-> "seal", ver |-> ver, purpose |-> purpose, key |-> key, claims |-> claims,
             footer |-> footer, aad |-> aad,
             fEnc |-> FALSE, cEnc |-> FALSE, failed |-> FALSE, rngFailed |-> FALSE, drawn |-> << >>]
